@@ -4,6 +4,7 @@ use std::path::Path;
 pub mod c01;
 pub mod c02;
 pub mod c03;
+pub mod c04;
 pub mod c05;
 pub mod c06;
 pub mod c07;
@@ -37,6 +38,7 @@ macro_rules! table {
             "C01" => $f(&c01::C01, $arg),
             "C02" => $f(&c02::C02, $arg),
             "C03" => $f(&c03::C03, $arg),
+            "C04" => $f(&c04::C04, $arg),
             "C05" => $f(&c05::C05, $arg),
             "C06" => $f(&c06::C06, $arg),
             "C07" => $f(&c07::C07, $arg),
